@@ -744,6 +744,71 @@ fn admin_history_instances(ctx: &Ctx) -> u64 {
     n
 }
 
+/// (i) Apps whose wasm keepers are configured differently (default, two custom checksum
+/// generators, a custom address generator), one after the other on one thread: each stores a code,
+/// instantiates it with and without salt and reports code info, addresses and contract info - as it
+/// does alone on a thread. Every ordered pair of configurations.
+fn keeper_config_instances(ctx: &Ctx) -> u64 {
+    struct Sums(u8);
+    impl cw_multi_test::ChecksumGenerator for Sums {
+        fn checksum(&self, creator: &Addr, code_id: u64) -> cosmwasm_std::Checksum {
+            cosmwasm_std::Checksum::generate(format!("{}-{}-{}", self.0, creator, code_id).as_bytes())
+        }
+    }
+    struct Addrs2;
+    impl cw_multi_test::AddressGenerator for Addrs2 {
+        fn contract_address(&self, api: &dyn cosmwasm_std::Api, _storage: &mut dyn cosmwasm_std::Storage, code_id: u64, instance_id: u64) -> cw_multi_test::error::AnyResult<Addr> {
+            Ok(api.addr_humanize(&cosmwasm_std::CanonicalAddr::from(format!("custom-address-{:08}-{:08}", code_id, instance_id).into_bytes()))?)
+        }
+    }
+    fn one(cfg: u8) -> Vec<String> {
+        set_watch(Watch::default());
+        let api = MockApi::default();
+        let u = api.addr_make("u");
+        let keeper: cw_multi_test::WasmKeeper<cosmwasm_std::Empty, cosmwasm_std::Empty> = match cfg {
+            0 => cw_multi_test::WasmKeeper::new(),
+            1 => cw_multi_test::WasmKeeper::new().with_checksum_generator(Sums(1)),
+            2 => cw_multi_test::WasmKeeper::new().with_checksum_generator(Sums(2)),
+            _ => cw_multi_test::WasmKeeper::new().with_address_generator(Addrs2),
+        };
+        let mut app = AppBuilder::new().with_storage(SnapStorage::new()).with_wasm(keeper).build(cw_multi_test::no_init);
+        let mut out = vec![];
+        let id = app.store_code_with_creator(u.clone(), Box::new(Puppet { tag: 1 }));
+        let dup = app.duplicate_code(id);
+        out.push(format!("stored {} copy {:?}", id, dup.as_ref().map_err(|e| e.to_string())));
+        for c in [id, dup.unwrap_or(0)] {
+            out.push(format!("code {} {:?}", c, app.wrap().query_wasm_code_info(c).map_err(|e| e.to_string())));
+        }
+        set_script(prog(DOp::Inst));
+        let a1 = app.instantiate_contract(id, u.clone(), &NodeMsg { n: 0 }, &[], "plain", None).map_err(|e| format!("{:#}", e));
+        set_script(prog(DOp::Inst));
+        let a2 = app.instantiate2_contract(id, u.clone(), &NodeMsg { n: 0 }, &[], "salted", None, Binary::from(vec![7u8, 7])).map_err(|e| format!("{:#}", e));
+        out.push(format!("plain {:?} salted {:?}", a1, a2));
+        for a in [a1, a2].into_iter().flatten() {
+            out.push(format!("info {:?}", app.wrap().query_wasm_contract_info(a.clone()).map_err(|e| e.to_string())));
+        }
+        let _ = take_trace();
+        let _ = take_reply_errs();
+        out.push(format!("raw={:032x}", hash128(&app.storage().data)));
+        out
+    }
+    let solos: Vec<Vec<String>> = (0..4u8).map(|c| std::thread::spawn(move || one(c)).join().unwrap()).collect();
+    let mut n = 0;
+    for a in 0..4u8 {
+        for b in 0..4u8 {
+            let (first, second) = std::thread::spawn(move || (one(a), one(b))).join().unwrap();
+            n += 1;
+            for (what, got, k) in [("first App", first, a), ("second App", second, b)] {
+                if got != solos[k as usize] {
+                    let diff: Vec<(String, String)> = got.iter().zip(&solos[k as usize]).filter(|(x, y)| x != y).map(|(x, y)| (x.clone(), y.clone())).take(3).collect();
+                    ctx.violation("c19:instances-interfere:differently-configured-wasm-keepers", json!({"what": what, "configurations (0 default, 1 and 2 custom checksum generators, 3 custom address generator)": [a, b], "differences (got, alone)": diff}));
+                }
+            }
+        }
+    }
+    n
+}
+
 pub fn run_c19(ctx: &Ctx) -> i32 {
     crate::tree::puppet::RECORD_ENV.store(true, std::sync::atomic::Ordering::Relaxed);
     let out = explore(ctx, true, false);
@@ -789,6 +854,7 @@ pub fn run_c19(ctx: &Ctx) -> i32 {
     let code_id_pairs = code_id_instances(ctx);
     let replaced_pairs = replaced_instances(ctx);
     let admin_pairs = admin_history_instances(ctx);
+    let keeper_pairs = keeper_config_instances(ctx);
     // (d) replay validation of an explicit-state exploration: states reached through snapshot
     // restore must equal the states reached by replaying their histories on one App
     let (regcov, _) = crate::reg::explore_registry(ctx, ctx.tier.pick(3, 4));
@@ -802,7 +868,7 @@ pub fn run_c19(ctx: &Ctx) -> i32 {
         "rule": "(a) every history over the operation alphabet up to the length bound, run on two independently built Apps, transcripts (results, events, data, code ids, addresses, checksums, invocation traces, final raw dump) compared; (b) every ordered pair of shorter histories on two Apps in one thread under every interleaving, each transcript compared with its solo transcript; (0) the same with a second, differently configured App (other bonded denomination, unbonding time, rate, commission, balances): solo transcripts of both configurations, and every pair of short histories under every interleaving and both construction orders; (c') histories with caught failures on one thread, directly and from another thread under extra stack frames, in this process (RUST_BACKTRACE=0) and in a second one with RUST_BACKTRACE=1: all four transcripts equal (the transcript includes every Reply verbatim - gas_used and error texts too - and the error texts of malformed and unanswerable queries); (c) digest of everything recomputed in a second OS process with 3 worker threads, which uses the two configurations in the opposite order; distinct_nontrivial = distinct transcripts",
         "exhaustive": true,
         "histories": out.histories, "history_pairs": out.pairs, "interleaved_runs": out.interleaved_runs,
-        "digest": mine, "digest_second_process": other, "environment_histories": eh.len(), "address_codec_call_sequences_each_on_its_own_thread": codec_seqs, "code_id_pairs_in_two_apps_each_on_its_own_thread": code_id_pairs, "snapshot_pairs_replaced_in_place_and_swapped": replaced_pairs, "contract_info_script_pairs_in_two_apps": admin_pairs,
+        "digest": mine, "digest_second_process": other, "environment_histories": eh.len(), "address_codec_call_sequences_each_on_its_own_thread": codec_seqs, "code_id_pairs_in_two_apps_each_on_its_own_thread": code_id_pairs, "snapshot_pairs_replaced_in_place_and_swapped": replaced_pairs, "contract_info_script_pairs_in_two_apps": admin_pairs, "wasm_keeper_configuration_pairs": keeper_pairs,
         "registry_exploration_replayed": {"states": regcov["states"], "replays": regcov["traces_validated_against_impl"], "mismatches": regcov["replay_mismatches (hidden state; reported by C19)"]},
         "alphabet": ALL.iter().map(|o| format!("{:?}", o)).collect::<Vec<_>>(),
         "caps_hit": [],
